@@ -22,6 +22,7 @@ typedef struct {
 	int evq_depth;			/* depth of the handler fibre's event queue */
 	int prefill_aq;			/* atomic run requests for the yielder issued (and not drained) before the scenario starts */
 	int zkick;			/* the sleeper makes the yielder runnable (fibre_run) before it calls fibre_timeout */
+	int evq_adv;			/* the event queue has been through this many real claim/send/receive/release cycles before the scenario starts */
 	int fine;			/* interrupts are also placed before every plain access of the main context to shared memory */
 } c06_cfg;
 extern c06_cfg C6;
